@@ -167,6 +167,61 @@ func EnumCond(thorough bool, f func(Case)) {
 	}
 }
 
+// ---- values of logical / relational expressions ---------------------------
+//
+// The cond family observes only truth; here the VALUE of the expression (always
+// 0 or 1, whatever the operands are) is used: printed, stored, added to,
+// concatenated, used as a subscript and passed to a function. Each expression
+// is grouped with its spelling through ?: .
+
+var valueLefts = []string{"5", "0", `""`, `"a"`, `"0"`, "u", "x", "$1", "$3", "2.5", "-1", "a[1]"}
+var valueRights = []string{"y > 1", "y ~ 4", "!y", "(k in a)", "/b/", "(x && y)", "(u || y)", "7", `"s"`, "y", "u", "(y > 1)", `$2 != ""`, "(y, 1) in a"}
+
+func EnumBoolValue(thorough bool, f func(Case)) {
+	ctxs := []string{
+		`print (E)`,
+		`r = E; print r`,
+		`print (E) + 1`,
+		`print (E) "|"`,
+		`b[E] = 1; for (k2 in b) print k2`,
+		`print idf(E), idf((E))`,
+		`$2 = E; print; print NF`,
+		`r = "z" (E); print r`,
+	}
+	emit := func(name, e, group string) {
+		for ci, cx := range ctxs {
+			src := "function idf(v) { return v }\n{ " + initStmts + "; y = 6; " + strings.ReplaceAll(cx, "E", e) + " }\n"
+			g := ""
+			if group != "" {
+				g = fmt.Sprintf("%s|c%d", group, ci)
+			}
+			f(Case{Family: "boolvalue", Name: fmt.Sprintf("%s/c%d", name, ci), Src: src, Group: g})
+		}
+	}
+	for _, l := range valueLefts {
+		emit("not/"+l, "!"+l, "bv|!"+l)
+		emit("notq/"+l, "("+l+") ? 0 : 1", "bv|!"+l)
+		for _, r := range valueRights {
+			g := "bv|" + l + "&&" + r
+			emit("and/"+l+"/"+r, l+" && "+r, g)
+			emit("andq/"+l+"/"+r, "("+l+") ? (("+r+") ? 1 : 0) : 0", g)
+			g = "bv|" + l + "||" + r
+			emit("or/"+l+"/"+r, l+" || "+r, g)
+			emit("orq/"+l+"/"+r, "("+l+") ? 1 : (("+r+") ? 1 : 0)", g)
+		}
+	}
+	// chains: the value of a three-operand chain, both associations
+	for _, l := range []string{"5", "u", `"a"`, "0"} {
+		for _, m := range []string{"y > 1", "u", "7"} {
+			for _, r := range []string{"!y", `"s"`, "y ~ 4"} {
+				emit("chain1/"+l+m+r, l+" || "+m+" && "+r, "")
+				emit("chain2/"+l+m+r, l+" && "+m+" || "+r, "")
+				emit("chain3/"+l+m+r, "("+l+" || "+m+") && "+r, "")
+			}
+		}
+	}
+}
+
 // ---- concatenation ------------------------------------------------------
 
 func groupings(ops []string) []string {
@@ -538,6 +593,69 @@ func EnumPairs(thorough bool, f func(Case)) {
 
 var tripleStmts = []string{"$2 = x", "$i++", "NF = 2", "$0 = \"p q r\"", "a[k]++", "delete a[k]", "i++", "OFS = \"-\"", "$1 = $1", "sub(/b/, \"X\")", "split($0, a)", "getline", "getline $2 < \"pre\"", "x = $(-1)", "u = $(NF+1)", "FS = \",\""}
 
+// ---- long runs -------------------------------------------------------------
+//
+// State that leaks a little per record or per call (call depth, frames, local
+// arrays, streams, cache slots) only shows after many repetitions: the same
+// small programs, 1300 records.
+
+func LongInput(n int) string {
+	var b strings.Builder
+	for i := 1; i <= n; i++ {
+		fmt.Fprintf(&b, "%d f%d x%d\n", i, i%7, i%3)
+	}
+	return b.String()
+}
+
+var longPrograms = []string{
+	`function f() { next } { n++; f(); m++ } END { print n, m, NR }`,
+	`function f() { if (NR % 2) next; return 1 } { n += f() } END { print n, NR }`,
+	`function g(d) { if (d > 0) return g(d - 1); next } { g(60) } END { print NR }`,
+	`function g(d, la) { la[d] = d; if (d > 0) return g(d - 1); next } { g(20) } END { print NR }`,
+	`function f() { nextfile } { n++; f() } END { print n, NR }`,
+	`function f() { if (NR == 1200) exit 3 } { f() } END { print NR }`,
+	`function f(la) { la[NR] = 1; la[NR + 1] = 2; return length(la) } { s += f() } END { print s }`,
+	`function f(la) { la[NR] = 1; next } { f() } END { print NR }`,
+	`function r(n) { return n ? r(n - 1) + 1 : 0 } { s += r(40) } END { print s }`,
+	`function f(x) { return x + 1 } { s += f($1) } END { print s }`,
+	`function f(a, b, c) { return a b c } { s = f($1, $2) } END { print s }`,
+	`{ while ((getline line < "pre") > 0) n++; close("pre") } END { print n }`,
+	`{ getline line < "pre" } END { print line, NR }`,
+	`{ print $1 > "out" ($1 % 3) } END { close("out0"); while ((getline l < "out0") > 0) k++; print k }`,
+	`{ print $1 > "out"; close("out") } END { getline l < "out"; print l }`,
+	`{ print $1 >> "out"; if (NR % 100 == 0) close("out") } END { close("out"); while ((getline l < "out") > 0) k++; print k }`,
+	`{ if ($0 ~ ("^" NR " ")) m++ } END { print m }`,
+	`{ if (match($0, "f" (NR % 150))) m++; n += RSTART } END { print m, n }`,
+	`{ s = s sprintf("%" (NR % 140 + 1) "d", 1) } END { print length(s) }`,
+	`{ n += split($0, parts, "[" (NR % 130) "x ]") } END { print n }`,
+	`{ t = $0; n += gsub("[f" (NR % 120) "]", "-", t) } END { print n }`,
+	`{ a[NR] = $0; delete a[NR - 1] } END { print length(a) }`,
+	`{ a[$2, $3]++ } END { for (k in a) n += a[k]; print n, length(a) }`,
+	`{ $(NF + 1) = NR; s += NF } END { print s }`,
+	`{ $2 = ""; $0 = $0; s += NF } END { print s }`,
+	`{ NF = 2; s = s length($0) % 10 } END { print length(s) }`,
+	`{ for (i = 0; i < 5; i++) { if (i == 3) break; if (i == 1) continue; c++ } } END { print c }`,
+	`{ do { j++; if (j % 7 == 0) break } while (j % 5) } END { print j }`,
+	`{ for (k in a) { delete a[k]; break }; a[NR] } END { print length(a) }`,
+	`NR % 50 == 1, NR % 50 == 10 { r++ } END { print r }`,
+	`NR % 50 == 1, NR % 50 == 10 { r++; next } { o++ } END { print r, o }`,
+	`{ x = x + 0 == 0 ? $1 : x "" } END { print x }`,
+	`{ s = substr(s $2, 1, 50) } END { print s }`,
+	`{ if ((getline nextl) > 0) n++ } END { print n, NR }`,
+	`BEGIN { while ((getline l) > 0) { n++; if (n % 100 == 0) s = s l } print n, length(s), NR }`,
+	`{ printf "%s %d %5.1f|", $2, $1, $1 / 3 > "out" } END { close("out"); getline l < "out"; print length(l) }`,
+	`{ u = toupper($2) tolower("ABC") index($0, "x") length() int($1 / 7) } END { print u }`,
+}
+
+// LongPrograms returns the long-run programs (C11 runs those that do main-loop bookkeeping).
+func LongPrograms() []string { return longPrograms }
+
+func EnumLong(thorough bool, f func(Case)) {
+	for i, src := range longPrograms {
+		f(Case{Family: "longrun", Name: fmt.Sprintf("l%d", i), Src: src + "\n"})
+	}
+}
+
 // EnumC01 enumerates all families.
 func EnumC01(thorough bool, f func(Case)) {
 	EnumMisc(thorough, f)
@@ -546,6 +664,8 @@ func EnumC01(thorough bool, f func(Case)) {
 	EnumControl(thorough, f)
 	EnumLvalue(thorough, f)
 	EnumCond(thorough, f)
+	EnumBoolValue(thorough, f)
+	EnumLong(thorough, f)
 	EnumConcat(thorough, f)
 	EnumPairs(thorough, f)
 }
